@@ -35,14 +35,21 @@ BSym(c) == "B_" \o c
 P(n, r) == [n |-> n, r |-> r]
 
 ---------------------------------------------------------------------------
-(* expressions.  E: any expression (allowed where the grammar says `expression`); A: a primary that is valid in   *)
-(* every operand position.  Operands of operators, starred operands and comprehension iterables are A, so that   *)
-(* every combination is valid whatever the precedence of the parts.  Default of E is A, of A the builtin `id`     *)
-(* (always declared).                                                                                            *)
-OpP == <<
+(* expressions.                                                                                                  *)
+(*   E  any expression (used where the Python grammar says `expression`): default A                              *)
+(*   A  an OBJECT-typed primary that is valid in every operand / base / iterable position: default the builtin   *)
+(*      `id` (always declared).  Operands of operators, call/subscript/attribute bases, starred operands and     *)
+(*      comprehension iterables are A, so every combination is valid Python whatever the precedence of its       *)
+(*      parts, and no operation is applied to a value whose type is known at compile time (the compiler rejects  *)
+(*      e.g. `~1.5` or `[]()`, which CPython compiles and fails at run time: not the subject of this property)   *)
+(*   N  number literal, R  int or float literal, I  int literal (default 1), S  str literal incl. f-strings (default 'a'), Y  bytes literal (default b'a') *)
+(* Literals, displays and comprehensions are alternatives of E; operations on literals are the explicit          *)
+(* productions n_* / s_* / y_*.                                                                                  *)
+ExprP == <<
   P("A",         <<"A">>),
   P("add",       <<"A", "+", "A">>),
   P("sub",       <<"A", "-", "A">>),
+  P("mul",       <<"A", "*", "A">>),
   P("pow",       <<"A", "**", "A">>),
   P("powneg",    <<"-", "A", "**", "-", "A">>),
   P("matmul",    <<"A", "@", "A">>),
@@ -68,12 +75,9 @@ OpP == <<
   P("notin",     <<"A", "not", "in", "A">>),
   P("cond",      <<"A", "if", "A", "else", "E">>),
   P("lambda0",   <<"lambda", ":", "E">>),
-  P("lambdaP",   <<"lambda", "P", ":", "E">>)
->>
-
-ExprStruct == <<
-  P("id",        <<"id">>),
-  P("paren",     <<"(", "E", ")">>),
+  P("lambdaP",   <<"lambda", "P", ":", "E">>),
+  \* typed values
+  P("vparen",    <<"(", "E", ")">>),
   P("tuple",     <<"(", "E", ",", "E", ")">>),
   P("tuple0",    <<"(", ")">>),
   P("tuple1",    <<"(", "E", ",", ")">>),
@@ -86,19 +90,6 @@ ExprStruct == <<
   P("liststar",  <<"[", "*", "A", ",", "E", "]">>),
   P("setstar",   <<"{", "*", "A", "}">>),
   P("tupstar",   <<"(", "*", "A", ",", ")">>),
-  P("call0",     <<"A", "(", ")">>),
-  P("call1",     <<"A", "(", "E", ")">>),
-  P("callkw",    <<"A", "(", "E", ",", "k", "=", "E", ")">>),
-  P("callstar",  <<"A", "(", "*", "A", ",", "**", "A", ")">>),
-  P("callgen",   <<"A", "(", "E", "for", "x", "in", "A", ")">>),
-  P("calltrail", <<"A", "(", "E", ",", ")">>),
-  P("attr",      <<"A", ".", "real">>),
-  P("subscr",    <<"A", "[", "E", "]">>),
-  P("slice",     <<"A", "[", "E", ":", "E", "]">>),
-  P("slice3",    <<"A", "[", ":", ":", "E", "]">>),
-  P("subtuple",  <<"A", "[", "E", ",", "E", ":", "]">>),
-  P("ellipsis",  <<"A", "[", "...", "]">>),
-  P("substar",   <<"A", "[", "*", "A", "]">>),
   P("listcomp",  <<"[", "E", "for", "x", "in", "A", "]">>),
   P("listcompif", <<"[", "x", "for", "x", "in", "A", "if", "A", "if", "x", "]">>),
   P("listcomp2", <<"[", "y", "for", "x", "in", "A", "for", "y", "in", "x", "]">>),
@@ -109,37 +100,110 @@ ExprStruct == <<
   P("none",      <<"None">>),
   P("true",      <<"True">>),
   P("debug",     <<"__debug__">>),
-  P("dots",      <<"...">>)
+  P("dots",      <<"...">>),
+  P("num",       <<"N">>),
+  P("str",       <<"S">>),
+  P("bytes",     <<"Y">>),
+  P("n_neg",     <<"-", "N">>),
+  P("n_pos",     <<"+", "N">>),
+  P("n_arith",   <<"N", "+", "N", "*", "N">>),
+  P("n_sub",     <<"N", "-", "N">>),
+  P("n_div",     <<"N", "/", "N">>),
+  P("n_floordiv", <<"R", "//", "R">>),
+  P("n_mod",     <<"R", "%", "R">>),
+  P("n_pow",     <<"N", "**", "N">>),
+  P("n_pownegexp", <<"2", "**", "-", "N">>),
+  P("n_cmp",     <<"R", "<", "R">>),
+  P("n_eq",      <<"N", "==", "N">>),
+  P("n_and",     <<"N", "and", "N">>),
+  P("n_not",     <<"not", "N">>),
+  P("n_cond",    <<"N", "if", "N", "else", "N">>),
+  P("n_invint",  <<"~", "1">>),
+  P("n_shift",   <<"1", "<<", "I">>),
+  P("n_bits",    <<"I", "&", "I", "|", "I", "^", "~", "I">>),
+  P("n_tuple",   <<"(", "N", ",", "N", ")">>),
+  P("n_call",    <<"A", "(", "N", ")">>),
+  P("n_withid",  <<"A", "+", "N">>),
+  P("s_cat",     <<"S", "+", "S">>),
+  P("s_adj",     <<"S", "S">>),
+  P("s_adj3",    <<"'a'", "\"b\"", "r'c'">>),
+  P("s_adjnl",   <<"(", "S", "NLJ", "S", ")">>),
+  P("s_mod",     <<"S", "%", "A">>),
+  P("s_modtuple", <<"S", "%", "(", "A", ",", "A", ")">>),
+  P("s_mul",     <<"S", "*", "I">>),
+  P("s_index",   <<"S", "[", "I", "]">>),
+  P("s_slice",   <<"S", "[", "I", ":", "]">>),
+  P("s_method",  <<"S", ".", "join", "(", "A", ")">>),
+  P("s_format",  <<"S", ".", "format", "(", "A", ",", "k", "=", "A", ")">>),
+  P("s_in",      <<"S", "in", "S">>),
+  P("s_cmp",     <<"S", "<", "S">>),
+  P("s_eq",      <<"S", "==", "S">>),
+  P("s_call",    <<"A", "(", "S", ")">>),
+  P("s_key",     <<"{", "S", ":", "S", "}">>),
+  P("s_sub",     <<"A", "[", "S", "]">>),
+  P("y_cat",     <<"Y", "+", "Y">>),
+  P("y_adj",     <<"Y", "B\"b\"">>),
+  P("y_index",   <<"Y", "[", "I", "]">>),
+  P("y_mod",     <<"Y", "%", "A">>),
+  P("y_eq",      <<"Y", "==", "Y">>),
+  P("y_call",    <<"A", "(", "Y", ")">>)
+>>
+
+AtomP == <<
+  P("id",        <<"id">>),
+  P("paren",     <<"(", "A", ")">>),
+  P("parenop",   <<"(", "A", "+", "A", ")">>),
+  P("parencond", <<"(", "A", "if", "A", "else", "A", ")">>),
+  P("parenlambda", <<"(", "lambda", ":", "A", ")">>),
+  P("call0",     <<"A", "(", ")">>),
+  P("call1",     <<"A", "(", "E", ")">>),
+  P("callkw",    <<"A", "(", "E", ",", "k", "=", "E", ")">>),
+  P("callstar",  <<"A", "(", "*", "A", ",", "**", "A", ")">>),
+  P("callgen",   <<"A", "(", "E", "for", "x", "in", "A", ")">>),
+  P("calltrail", <<"A", "(", "E", ",", ")">>),
+  P("attr",      <<"A", ".", "real">>),
+  P("attrkw",    <<"A", ".", "match", ".", "case", ".", "type", ".", "_">>),
+  P("subscr",    <<"A", "[", "E", "]">>),
+  P("slice",     <<"A", "[", "E", ":", "E", "]">>),
+  P("slice3",    <<"A", "[", ":", ":", "E", "]">>),
+  P("subtuple",  <<"A", "[", "E", ",", "E", ":", "]">>),
+  P("ellipsis",  <<"A", "[", "...", "]">>),
+  P("substar",   <<"A", "[", "*", "A", "]">>)
 >>
 
 (* literal lexemes (all accepted by CPython 3.12; some with a SyntaxWarning) *)
-NumLex == << "0", "1", "1_000", "0xFF", "0XfF_0", "0o17", "0b101", "00", "0_0", "1.5", "1.", ".5", "1e10", "1E-5",
-             "1_0.0_1e+1_0", "1j", "1.5J", "1e400", "1e-400", "0e0", "1e400j", "0.0_0", "<INT40>", "<INT4000>",
-             "<HEX5000>", "<FLOAT400>", "<FLOATFRAC400>", "9223372036854775808", "0x8000000000000000",
-             "18446744073709551616", "2147483648", "0b" \o "1111111111111111111111111111111111111111111111111111111111111111" >>
-StrLex == << "'a'", "\"a\"", "'''a'''", "\"\"\"a'\"\"\"", "''", "b'a'", "b''", "rb'\\d'", "Rb'a'", "bR'\\''", "u'a'", "U\"a\"",
-             "r'\\''", "'\\n\\t\\\\\\'\\\"\\a\\b\\f\\r\\v'", "'\\x41'", "'\\101'", "'\\1'", "'\\400'", "'\\777'", "b'\\377'",
-             "b'\\xff\\x00'", "'\\u20ac'", "'\\U0001f600'", "'\\N{DIGIT ONE}'", "'\\N{digit one}'",
-             "'\\N{LATIN SMALL LETTER A WITH GRAVE}'", "'\\ud800'", "'\\udc00\\ud800'", "'\\x00'", "'\\0'",
-             "'\\\nb'", "'''a\nb'''", "b'''a\nb'''", "b'\\N{x}'", "b'\\u20ac'", "'\\q'", "'\\8'", "b'\\400'", "r'\\N{x}'",
+IntLex == << "1", "0", "1_000", "0xFF", "0XfF_0", "0o17", "0b101", "00", "0_0", "<INT40>", "<INT4000>", "<HEX5000>",
+             "9223372036854775808", "0x8000000000000000", "18446744073709551616", "2147483648", "0x7fffffff", "4294967296",
+             "0b" \o "1111111111111111111111111111111111111111111111111111111111111111" >>
+FloatLex == << "1.5", "1.", ".5", "1e10", "1E-5", "1_0.0_1e+1_0", "1e400", "1e-400", "0e0", "0.0_0", "<FLOAT400>",
+               "<FLOATFRAC400>", "0.1", "1e308", "5e-324", "0.0" >>
+ImagLex == << "1j", "1.5J", "1e400j", "0j", "0_1J" >>
+StrLex == << "'a'", "\"a\"", "'''a'''", "\"\"\"a'\"\"\"", "''", "u'a'", "U\"a\"",
+             "r'\\''", "'\\n\\t\\\\\\'\\\"\\a\\b\\f\\r\\v'", "'\\x41'", "'\\101'", "'\\1'", "'\\400'", "'\\777'",
+             "'\\u20ac'", "'\\U0001f600'", "'\\N{DIGIT ONE}'", "'\\N{digit one}'",
+             "'\\N{LATIN SMALL LETTER A WITH GRAVE}'", "'\\ud800'", "'\\udc00\\ud800'", "'\\ud83d\\ude00'", "'\\x00'", "'\\0'",
+             "'\\\nb'", "'''a\nb'''", "'\\q'", "'\\8'", "r'\\N{x}'", "R'\\u20ac'",
              "'\\x7f\\x80\\xff'", "'%s%%'", "'{}'", "<STR_EURO>", "<STR_ASTRAL>", "<STR_LATIN1>", "<RSTR_EURO>",
-             "<STR_LONG>", "<BYTES_LONG>", "<STR_MANYESC>", "<STR_TRIGRAPH>", "<STR_NL_ESC>" >>
-FStrLex == << "f'{id}'", "f'{id!r}'", "f'{id!s:^{id}}'", "f'{id:>10}'", "f'{id:{id}}'", "f'{id=}'", "f'{id = !r}'", "f'{{}}'",
-              "f'a{id}b{id}c'", "f'{'a'}'", "f\"{id:{id}.{id}}\"", "rf'{id}\\d'", "Rf'{id}'", "fR'{id}'", "f'{id + 1}'", "f'''{\nid}'''",
-              "f'{(lambda: 1)()}'", "f'{id,}'", "f'{*id,}'", "f'{id:%Y-%m}'", "f'{id:{id:{id}}}'", "f'{f'{id}'}'",
-              "f'\\N{DIGIT ONE}{id}'", "f'{\"a\" if id else \"b\"}'", "f'{id:\\x41}'", "f'{id!a}'", "f''", "f'{id[\"a\"]}'",
-              "f'{id:}'", "f'{ id }'", "f'{id!r:}'", "f'{{{id}}}'", "f'{id}' 'a' f'{id}'", "f'{id:{\"a\"}}'", "f'{\"\\n\"}'",
-              "f'{id #c\n}'", "f'{1:{1}}'", "f'{1.}'", "f'{0x1}{1e3}'", "f'{id.real}'",
-              "f'{id!r}' f'{id!s}'", "f'{[x for x in id]}'", "f'{ {1: 2}[1] }'", "f'{id:,}'", "f'{-id:+}'",
-              "f'{\"{\"}'", "f'{id\n}'" >>
+             "<STR_LONG>", "<STR_MANYESC>", "<STR_TRIGRAPH>", "<STR_NL_ESC>",
+             "f'{id}'", "f'{id!r}'", "f'{id!s:^{id}}'", "f'{id:>10}'", "f'{id:{id}}'", "f'{id=}'", "f'{id = !r}'", "f'{{}}'",
+             "f'a{id}b{id}c'", "f'{'a'}'", "f\"{id:{id}.{id}}\"", "rf'{id}\\d'", "Rf'{id}'", "fR'{id}'", "f'{id + 1}'", "f'''{\nid}'''",
+             "f'{(lambda: 1)()}'", "f'{id,}'", "f'{*id,}'", "f'{id:%Y-%m}'", "f'{id:{id:{id}}}'", "f'{f'{id}'}'",
+             "f'\\N{DIGIT ONE}{id}'", "f'{\"a\" if id else \"b\"}'", "f'{id:\\x41}'", "f'{id!a}'", "f''", "f'{id[\"a\"]}'",
+             "f'{id:}'", "f'{ id }'", "f'{id!r:}'", "f'{{{id}}}'", "f'{id}' 'a' f'{id}'", "f'{id:{\"a\"}}'", "f'{\"\\n\"}'",
+             "f'{id #c\n}'", "f'{1:{1}}'", "f'{1.}'", "f'{0x1}{1e3}'", "f'{id.real}'",
+             "f'{id!r}' f'{id!s}'", "f'{[x for x in id]}'", "f'{ {1: 2}[1] }'", "f'{id:,}'", "f'{-id:+}'",
+             "f'{\"{\"}'", "f'{id\n}'", "f'{id}\\n\\x41\\u20ac'", "f'{id:{id}{id}}'", "f'{id!r:{id}}'", "f'{id:=^+#010.3f}'" >>
+BytesLex == << "b'a'", "b''", "rb'\\d'", "Rb'a'", "bR'\\''", "b'\\377'", "b'\\xff\\x00'", "b'''a\nb'''", "b'\\N{x}'",
+               "b'\\u20ac'", "b'\\400'", "b'\\q'", "<BYTES_LONG>", "b\"\\\"\"", "b'\\\nb'" >>
 
 RECURSIVE LexProds(_, _, _)
 LexProds(pfx, lex, i) == IF i > Len(lex) THEN <<>>
                          ELSE <<P(pfx \o ":" \o lex[i], <<lex[i]>>)>> \o LexProds(pfx, lex, i + 1)
-
-AtomP == ExprStruct \o LexProds("num", NumLex, 1) \o LexProds("str", StrLex, 1) \o LexProds("fstr", FStrLex, 1)
-         \o << P("strcat", <<"'a'", "\"b\"", "r'c'">>), P("bytescat", <<"b'a'", "B\"b\"">>),
-               P("strcatnl", <<"(", "'a'", "NLJ", "'b'", ")">>) >>
+NumP == LexProds("n", IntLex \o FloatLex \o ImagLex, 1)
+RealP == LexProds("n", IntLex \o FloatLex, 1)
+IntP == LexProds("n", IntLex, 1)
+StrP == LexProds("s", StrLex, 1)
+BytesP == LexProds("y", BytesLex, 1)
 
 (* assignment / loop targets: default `x` *)
 TargetP == <<
@@ -291,19 +355,19 @@ Common(c) ==
   P("def",       <<"def", "f", "(", "DP", ")", ":", BSym("F")>>),
   P("defret",    <<"def", "f", "(", "DP", ")", "->", "E", ":", BSym("F")>>),
   P("defdoc",    <<"def", "f", "(", "DP", ")", ":", "NL", "INDENT", "'doc'", "NL", SSym("F"), "DEDENT">>),
-  P("deco",      <<"@", "E", "NL", "def", "f", "(", "DP", ")", ":", BSym("F")>>),
-  P("deco2",     <<"@", "E", "NL", "@", "E", "NL", "def", "f", "(", "DP", ")", ":", BSym("F")>>),
+  P("deco",      <<"@", "A", "NL", "def", "f", "(", "DP", ")", ":", BSym("F")>>),
+  P("deco2",     <<"@", "A", "NL", "@", "A", "NL", "def", "f", "(", "DP", ")", ":", BSym("F")>>),
   P("class",     <<"class", "K", ":", BSym("C")>>),
   P("classbase", <<"class", "K", "(", "E", ")", ":", BSym("C")>>),
   P("classkw",   <<"class", "K", "(", "E", ",", "metaclass", "=", "E", ")", ":", BSym("C")>>),
   P("classstar", <<"class", "K", "(", "*", "A", ",", "**", "A", ")", ":", BSym("C")>>),
   P("class0",    <<"class", "K", "(", ")", ":", BSym("C")>>),
-  P("decoclass", <<"@", "E", "NL", "class", "K", ":", BSym("C")>>),
+  P("decoclass", <<"@", "A", "NL", "class", "K", ":", BSym("C")>>),
   P("asyncdef",  <<"async", "def", "f", "(", "DP", ")", ":", BSym("A")>>),
   P("match",     <<"match", "E", ":", "NL", "INDENT", "case", "PAT", ":", B, "DEDENT">>),
   P("match2",    <<"match", "E", ":", "NL", "INDENT", "case", "LP", ":", B, "case", "PAT", ":", B, "DEDENT">>),
   P("matchguard", <<"match", "E", ":", "NL", "INDENT", "case", "PAT", "if", "E", ":", B, "DEDENT">>),
-  P("matchtuple", <<"match", "E", ",", "E", ":", "NL", "INDENT", "case", "PAT", ",", "LP", ":", B, "DEDENT">>),
+  P("matchtuple", <<"match", "E", ",", "E", ":", "NL", "INDENT", "case", "LP", ",", "PAT", ":", B, "DEDENT">>),
   P("nonlocal",  <<"def", "f", "(", ")", ":", "NL", "INDENT", "n", "=", "E", "NL", "def", "g", "(", ")", ":", "NL", "INDENT",
                    "nonlocal", "n", "NL", "n", "=", "E", "NL", "DEDENT", "return", "g", "NL", "DEDENT">>),
   P("closure",   <<"def", "f", "(", "x", ")", ":", "NL", "INDENT", "def", "g", "(", ")", ":", BSym("F"), "return", "x", ",", "g", "NL", "DEDENT">>),
@@ -312,8 +376,12 @@ Common(c) ==
   P("pep695type", <<"type", "X", "=", "E", "NL">>),
   P("pep695bound", <<"def", "f", "[", "Tp", ":", "int", ",", "*", "Ts", ",", "**", "Q", "]", "(", ")", ":", BSym("F")>>),
   P("softkw",    <<"match", "=", "case", "=", "type", "=", "E", "NL", "match", "(", "case", ")", "NL">>),
+  P("decoexpr",  <<"@", "E", "NL", "def", "f", "(", ")", ":", BSym("F")>>),
   P("printfn",   <<"print", "(", "E", ",", "sep", "=", "E", ",", "file", "=", "E", ")", "NL">>),
   P("execfn",    <<"exec", "(", "E", ")", "NL">>),
+  P("strstmt",   <<"S", ".", "upper", "(", ")", "NL">>),
+  P("strstmt2",  <<"S", "%", "A", "NL">>),
+  P("numstmt",   <<"N", "+", "A", "NL">>),
   P("comment",   <<"pass", "#c", "NL">>),
   P("contline",  <<"x", "=", "E", "BSNL", "+", "A", "NL">>),
   P("blankline", <<"pass", "NL", "NLJ", "#c", "NL", "pass", "NL">>)
@@ -371,7 +439,7 @@ FileP == << P("one",      <<"S_M">>),
             P("bom",      <<"<BOM>", "S_M">>),
             P("cookie",   <<"<COOKIE_UTF8>", "NLJ", "S_M">>) >>
 
-Fixed == [Start |-> FileP, E |-> OpP, A |-> AtomP, T |-> TargetP, P |-> ParamP, DP |-> DefParamP, PAT |-> PatP, LP |-> LitPatP]
+Fixed == [Start |-> FileP, E |-> ExprP, A |-> AtomP, N |-> NumP, R |-> RealP, I |-> IntP, S |-> StrP, Y |-> BytesP, T |-> TargetP, P |-> ParamP, DP |-> DefParamP, PAT |-> PatP, LP |-> LitPatP]
 SSyms == {SSym(c) : c \in Ctxs}
 BSyms == {BSym(c) : c \in Ctxs}
 NTSet == TLCEval(DOMAIN Fixed \cup SSyms \cup BSyms)
@@ -382,7 +450,7 @@ Prods == TLCEval([A \in NTSet |-> IF A \in DOMAIN Fixed THEN Fixed[A]
 IsNT(s) == s \in NTSet
 
 (* numbering of nonterminals for the seeded pair sample *)
-NTOrder == <<"Start", "E", "A", "T", "P", "DP", "PAT", "LP", "S_M", "S_C", "S_L", "S_F", "S_FL", "S_A", "S_AL",
+NTOrder == <<"Start", "E", "A", "N", "R", "I", "S", "Y", "T", "P", "DP", "PAT", "LP", "S_M", "S_C", "S_L", "S_F", "S_FL", "S_A", "S_AL",
              "B_M", "B_C", "B_L", "B_F", "B_FL", "B_A", "B_AL">>
 NTIndex(A) == CHOOSE i \in 1..Len(NTOrder) : NTOrder[i] = A
 NTIdx == TLCEval([A \in NTSet |-> NTIndex(A)])
